@@ -12,7 +12,7 @@
 (* The invariants below are the design-level statements of C04/C08/C18 on  *)
 (* the reference machine; the harness binds them to the code.              *)
 (***************************************************************************)
-EXTENDS Naturals, Sequences, FiniteSets, TLC, Json, SequencesExt, PreprocCore
+EXTENDS Naturals, Sequences, FiniteSets, TLC, Json, SequencesExt, PreprocCore, Reports
 
 CONSTANTS Profile, Shard, NShards
 
@@ -48,6 +48,13 @@ P == CASE Profile = "c04q" ->
             [slots |-> <<<<"inc", "h.h">>, <<"inc", "g.h">>>>,
              bodies |-> {"once", "guard", "testX", "defX", "undefX"}, stmts |-> {"qh", "qg", "testX", "defX"},
              maxmain |-> 1, nmains |-> 2, idirs |-> {<<Iu("inc")>>}, forced |-> {<<>>}, nents |-> 2, plats |-> <<"p1", "p2">>]
+      [] Profile = "c06" ->
+            [slots |-> <<<<"src", "h.h">>, <<"inc", "h.h">>, <<"sys", "g.h">>, <<"bld", "g.h">>, <<"ext", "g.h">>>>,
+             bodies |-> {"plain", "def", "guard", "testX", "incq"}, stmts |-> {"qh", "ah", "qg", "ag", "testX", "defX", "dead"},
+             maxmain |-> 3, nmains |-> 2,
+             idirs |-> {<<Iu("inc"), Iu("sys")>>, <<Iu("inc"), Is("sys")>>, <<Iu("bld"), Iu("inc"), Iu("sys")>>,
+                        <<Iu("ext"), Iu("inc"), Is("sys")>>},
+             forced |-> {<<>>}, nents |-> 3, plats |-> <<"p1", "p2", "p3">>]
       [] Profile = "c18" ->
             [slots |-> <<<<"src", "h.h">>, <<"inc", "h.h">>, <<"inc", "g.h">>, <<"ext", "g.h">>>>,
              bodies |-> {"def", "guard", "once", "miss", "unk", "incq", "testX"},
@@ -175,10 +182,37 @@ Hash == (Len(ents) + Cardinality(DOMAIN files) * 3 +
          Len(files["src/m1.c"].items) * 5 +
          Cardinality({f \in DOMAIN files : Len(files[f].items) > 2}) * 7) % NShards
 
+\* ---- C06: what the reports must show (one physical line per item in the plain rendering) --------
+DirPath(d) == CASE d = "src" -> <<"src">> [] d = "inc" -> <<"inc">> [] d = "sys" -> <<"sys", "include">>
+                [] d = "bld" -> <<"build">> [] OTHER -> <<d>>
+PlatSetOf == {ents[i].plat : i \in 1..Len(ents)}
+AttrOf(p) == UNION {Run(ents[i]).attr : i \in {j \in 1..Len(ents) : ents[j].plat = p}}
+LinesFor(plats) ==
+  LET A == TLCEval([p \in plats |-> AttrOf(p)])
+      M == {g \in DOMAIN files : files[g].dir # "ext"}
+  IN UNION {{[f |-> f, path |-> Append(DirPath(files[f].dir), files[f].name), i |-> i,
+              ps |-> {p \in plats : <<f, i>> \in A[p]}] : i \in 1..Len(files[f].items)} : f \in M}
+RealLines(plats) == TLCEval(LinesFor(plats))
+TreeOut(L) == LET t == Tree(L) ps == SetToSeq(DOMAIN t) IN
+  [j \in 1..Len(ps) |-> [path |-> ps[j], sloc |-> t[ps[j]].sloc, plats |-> SetToSeq(t[ps[j]].plats),
+                          cov |-> t[ps[j]].cov, avg |-> t[ps[j]].avg]]
+RepOut(plats) ==
+  LET L == RealLines(plats) tab == TLCEval(Tab(L)) ks == SetToSeq(DOMAIN tab) IN
+  [setmap |-> [j \in 1..Len(ks) |-> [k |-> SetToSeq(ks[j]), n |-> tab[ks[j]]]],
+   total |-> Sloc(L), tree |-> TreeOut(L), ptree |-> TreeOut(Pruned(L)),
+   cov |-> [f \in FilesOf(L) |-> CovExport(L, f)],
+   laws |-> RowsPartition(L) /\ DirIsSumOfChildren(L) /\ RootIsSummary(L) /\ PruneDropsExactlyUnused(L)
+            /\ UsedUnusedPartition(L)]
+WithReports == Profile = "c06"
+
 Emit == /\ stage = "tu" /\ Len(ents) = NEntries
         /\ stage' = "done" /\ UNCHANGED <<si, files, cur, ns, ents>>
         /\ (Hash = Shard) =>
-             PrintT(ToJson([files |-> files, ents |-> ents,
+             IF WithReports
+             THEN PrintT(ToJson([files |-> files, ents |-> ents,
+                            res |-> [i \in 1..Len(ents) |-> Result(ents[i])],
+                            rep |-> RepOut(PlatSetOf), rep0 |-> RepOut({})]))
+             ELSE PrintT(ToJson([files |-> files, ents |-> ents,
                             res |-> [i \in 1..Len(ents) |-> Result(ents[i])]]))
 
 Next == SkipSlot \/ AddHeader \/ HdrDone \/ AddStmt \/ CloseMain \/ AddEntry \/ Emit
@@ -202,6 +236,9 @@ WarnsOnlyReached == Ready => \A i \in 1..Len(ents) : LET r == Run(ents[i]) IN
 \* C08 (design level): a platform's attribution is the union over its TUs run ALONE from a fresh
 \* state, hence independent of their order.
 PlatformAttrOf(p, order) == UNION {Run(ents[order[j]]).attr : j \in {k \in 1..Len(order) : ents[order[k]].plat = p}}
+\* C06 (design level): the report identities hold for the attribution of every generated scenario
+ReportLaws == (Ready /\ WithReports) => (RepOut(PlatSetOf).laws /\ RepOut({}).laws)
+
 OrderIndependent == Ready => \A p \in {Plats[i] : i \in 1..Len(Plats)} :
    PlatformAttrOf(p, [i \in 1..Len(ents) |-> i]) = PlatformAttrOf(p, [i \in 1..Len(ents) |-> Len(ents) + 1 - i])
 ==========================================================================
